@@ -31,7 +31,7 @@ DEFAULT_PROFILE = {
     "p_http": 0.9, "p_signature": 0.7, "p_routing": 0.25, "p_keyword_rpc": 0.08,
     "p_service_config": 0.8, "p_yaml": 0.3, "p_reserved_field": 0.08, "p_two_services": 0.25,
     "p_foreign_request": 0.1, "p_shuffle_numbers": 0.2, "p_additional_binding": 0.25,
-    "p_auto_populate": 0.0, "p_google_api_ns": 0.0, "common_file_names": ["resources"],
+    "p_auto_populate": 0.0, "p_google_api_ns": 0.0, "sig_variants": False, "common_file_names": ["resources"],
     "transports": ["grpc", "grpc+rest", "grpc+rest", "rest"],
     "p_numeric_enums": 0.3,
     "paged_variants": False,
@@ -406,7 +406,9 @@ def _gen_methods(cx, pkg, main, svc, noun, res, enums, msgs):
                 m["http"] = {"verb": verbh, "path": f"{pre}/{{name={wild}}}:{verb.lower()}"}
                 if body:
                     m["http"]["body"] = body
-            if cx.chance("p_signature"):
+            if cx.chance("p_signature") and cx.p.get("sig_variants"):
+                m["signatures"] = _sig_variants(cx, pkg, fields)
+            elif cx.chance("p_signature"):
                 sig = ["name"] + [f["name"] for f in fields[1:] if rng.random() < 0.5 and not f.get("oneof")]
                 m["signatures"] = [",".join(sig)]
             if cx.chance("p_routing"):
@@ -459,6 +461,8 @@ def _gen_methods(cx, pkg, main, svc, noun, res, enums, msgs):
 
     if cx.chance("p_foreign_request") and _unique_method(svc, "SetIamPolicy"):
         m = {"name": "SetIamPolicy", "input": ".google.iam.v1.SetIamPolicyRequest", "output": ".google.iam.v1.Policy"}
+        if cx.chance("p_signature"):
+            m["signatures"] = [rng.choice(["resource", "resource,policy", "resource,policy,update_mask"])]
         if cx.chance("p_http"):
             m["http"] = {"verb": "post", "path": f"{pre}/{{resource={wild}}}:setIamPolicy", "body": "*"}
         svc["methods"].append(m)
@@ -527,6 +531,51 @@ def _gen_lro_variant(cx, pkg, main, svc, noun, res):
     if cx.chance("p_signature"):
         m["signatures"] = ["name"]
     svc["methods"].append(m)
+
+
+def _lookup_msg(cx, type_name):
+    for f in cx.files:
+        for mm in f["messages"]:
+            if "." + f["package"] + "." + mm["name"] == type_name:
+                return mm
+    return None
+
+
+def _sig_variants(cx, pkg, fields):
+    """method_signature entries over top-level and dotted (one level) fields of every kind:
+    scalar / optional / message / enum / repeated / map / reserved-word names (DESIGN.md section 4 C05)."""
+    rng = cx.rng
+    cands = []
+    for f in fields:
+        if f.get("oneof"):
+            continue
+        cands.append(f["name"])
+        if f["type"] == "message" and not f.get("repeated") and not f.get("map") and f.get("type_name", "").startswith("." + pkg + "."):
+            sub = _lookup_msg(cx, f["type_name"])
+            if sub is not None:
+                for g in sub["fields"]:
+                    if not g.get("oneof"):
+                        cands.append(f["name"] + "." + g["name"])
+    sigs = []
+    for _ in range(rng.choice([1, 1, 2])):
+        k = rng.randint(1, min(4, len(cands)))
+        pick = rng.sample(cands, k)
+        sigs.append(pick)
+    # leaf names must be unique across the union, and a parent must not be listed with its child
+    seen, out = {}, []
+    for sg in sigs:
+        keep = []
+        for path in sg:
+            leaf = path.split(".")[-1]
+            if seen.get(leaf, path) != path:
+                continue
+            if any(p2 != path and (p2.startswith(path + ".") or path.startswith(p2 + ".")) for p2 in seen.values()):
+                continue
+            seen[leaf] = path
+            keep.append(path)
+        if keep:
+            out.append(",".join(keep))
+    return out or ["name"]
 
 
 def p_variants(cx):
